@@ -286,7 +286,9 @@ impl super::DebugSession {
             .map_err(|err| anyhow!("writeMemory: base64 decode failed: {err}"))?;
         write_bytes(dbg, addr, &bytes).context("writeMemory: write_bytes")?;
         self.send_success_body(req, json!({ "bytesWritten": bytes.len() }))?;
-        self.enqueue_invalidated(vec!["memory".to_string()]);
+        // the written bytes may belong to variables cached for this stop
+        self.scope_cache.clear();
+        self.enqueue_invalidated(vec!["memory".to_string(), "variables".to_string()]);
         self.drain_events()
     }
 
@@ -382,6 +384,9 @@ impl super::DebugSession {
         };
 
         self.send_success_body(req, response)?;
+        // the client is told to fetch the variables again: do not answer from the
+        // values cached for this stop
+        self.scope_cache.clear();
         self.enqueue_invalidated(vec![
             "variables".to_string(),
             "stack".to_string(),
